@@ -252,9 +252,29 @@ struct Case {
     challenge_forever: bool,
 }
 
+/// The definition-driven entry point for one single-request game of several families: the caller's retry count has to
+/// reach the protocol through it as well.
+fn generic_targets() -> Vec<Target> {
+    use std::sync::Arc;
+    [("mindustry", Family::Mindustry), ("q3a", Family::Quake(crate::rsm::quake::Ver::Three)), ("minecraftbedrock", Family::Bedrock), ("hce", Family::Gs2)]
+        .into_iter()
+        .filter_map(|(id, family)| {
+            let game = gamedig::GAMES.get(id)?;
+            Some(Target {
+                name: format!("gamedig::query_with_timeout('{id}')"),
+                family,
+                server: server_for(family),
+                call: Arc::new(move |ts| gamedig::query_with_timeout(game, &IP4, Some(PORT), ts).map(|r| to_json(&r.as_original()))),
+                honours_timeout: true,
+                toggles: None,
+            })
+        })
+        .collect()
+}
+
 fn build(tier: Tier) -> Vec<Case> {
     let mut v = Vec::new();
-    for t in protocol_targets() {
+    for t in protocol_targets().into_iter().chain(generic_targets()) {
         if !t.honours_timeout || matches!(t.family, Family::McAuto | Family::McLegacyAuto | Family::Savage2 | Family::Master) {
             continue;
         }
@@ -418,7 +438,7 @@ impl Prop for C10 {
     fn n_cases(&self, tier: Tier) -> usize { cases(tier).len() }
     fn case_label(&self, tier: Tier, idx: usize) -> String { cases(tier)[idx].label.clone() }
     fn rule(&self) -> String {
-        "case = (protocol entry point that retries, request unit of its exchange: info / players / rules, handshake+data, \
+        "case = (protocol entry point that retries - also the definition-driven entry point for one single-request game of four families -, request unit of its exchange: info / players / rules, handshake+data, \
          handshake+status+ping ..., retry count r in 0..3 (quick) / 0..5 (thorough)). Within the unit every send may fail and every pending reply may \
          be delivered, dropped (silence) or replaced by a malformed reply (2-4 shapes per format, see assumptions); ALL such outcome sequences are enumerated (the tree is finite \
          because attempts are bounded), the other units are answered validly; for the multi-request exchanges (Valve, Unreal 2) also \
